@@ -223,7 +223,7 @@ TEXT.update({
 _EXTRA = {
     "C01": " Object histories are part of the workload: the adiabatic value is read (twice) and the isothermal results must be bit-identical afterwards, "
            "and every third case of a worker re-uses the (T,V) grid, q-point/atom counts, weights and (every second time) strain fractions of the previous case with a new spectrum "
-           "(state kept between calculations); the calculator object itself is re-used with a shifted temperature grid.",
+           "(state kept between calculations); the calculator object itself is re-used with a shifted temperature grid. The references are computed from the strain fractions the harness handed to the constructor, not from what the object keeps.",
     "C02": " Every third case re-uses the (T,V) grid, array shapes, weights and (every second time) strain fractions of the previous case with a new spectrum (module-level memoisation would show); "
            "every fifth case has one negative strain fraction (an axis that lengthens under compression), so that off-diagonal gaps of both signs are judged; the returned value_adiabatic - value_isothermal is judged at the boundary as well as at the hook (an override in a subclass bypasses the hook).",
     "C03": " Rotated strain fractions are requested for float, integer-typed (whole-number proportions), non-contiguous and read-only strain arrays and for a single strain triple.",
@@ -231,28 +231,28 @@ _EXTRA = {
     "C05": " Static tables are tabulated on their own volume sets (same, shifted, different count); input files carry user-chosen names / sub-directories and the settings are "
            "addressed by absolute and relative paths; a quarter of the data sets are run a second time in the same process under another volume_ratio and T grid and judged again; "
            "a generic-data class uses the oracle's own least-squares polynomial as reference; the shipped akimotoite example is judged by the second reference with its static part isolated as M(2c)-M(c). Total minus static pressure is judged against the oracle's own "
-           "-d/dV of the configured-order finite-strain fit of F_vib(T,V_i); E(V) carries 4th/5th-order finite-strain terms in 40 % of the data sets and qha.settings.order runs over 2-5.",
+           "-d/dV of the configured-order finite-strain fit of F_vib(T,V_i); E(V) carries 4th/5th-order finite-strain terms in 40 % of the data sets and qha.settings.order runs over 2-5; the rows of the static table (with their lattice rows) are listed largest-volume-first, smallest-first or unordered.",
     "C06": " Reads served from a memo (no conversion event) are still judged by value; after write_output (including the p and v tables) P(T,V), V(T,P), the identity and one converted modulus are re-checked. Half of the data sets have E(V) that no cubic reproduces, the EoS order runs over 2-5 and every sixth data set is a static-only run.",
     "C07": " The stiffness field is injected into a real Calculator object (no __init__), and for every eighth field all volume-base tables are written and the judge runs again; the object carries the effective configuration of a settings file, "
            "with the symmetry options (drop_atol, residual_atol, ignore flags) at their defaults or at other admissible values; compliances are also read by name (s11, s11s, s11t) "
-           "and judged against the inverse of the reported stiffness of the corresponding kind.",
+           "and judged against the inverse of the reported stiffness of the corresponding kind; a quarter of the fields carry components the declared crystal system forbids (as ignore_residuals lets through).",
     "C08": " Tables carry default, offset, shuffled, volume-valued and string row indexes, and each case fills the same supplied set a second time with the columns in another order; an integer-typed whole-number column next to decimal columns, "
-           "and components that keep one sign and vanish at one end of the tabulated range, are part of the data.",
+           "and components that keep one sign and vanish at one end of the tabulated range (filled with the default and with larger drop tolerances), are part of the data.",
     "C09": " Row-index variants and the command-line flags --ignore-rank / --ignore-residuals are part of the presentation and refusal sweeps; drop-tolerance tables include components that cross the tolerance from one volume to the next (kept, entries intact).",
     "C11": " Sampled-volume counts 4-12 including 7, 9, 10; all cases of one (method, count, order) run one after the other in one process on different volume sets, each exact case followed by a volume set with the same end volumes and count but other interior volumes; the sampled range in ln V runs over 0.3, 0.2, 0.14, 0.1 and V_max up to 3000 bohr^3 (conditioning of real input files).",
-    "C12": " Every third configuration is followed, in the same process and on the same data, by a run on a shifted temperature grid of identical shape; c^S(0) = c^T(0) and the continuity of c^S towards T = 0 are judged as well; a large-grid class (1000-2000 temperature rows from T=0 in steps of 0.25-1 K, 40-280 MB per (T,V,q,mode) array) is part of both tiers; a fifth of the data sets list a q-point of weight zero; EoS orders 2-5 and non-cubic E(V) as in C05.",
+    "C12": " Every third configuration is followed, in the same process and on the same data, by a run on a shifted temperature grid of identical shape; c^S(0) = c^T(0) and the continuity of c^S towards T = 0 are judged as well; a large-grid class (1000-2000 temperature rows from T=0 in steps of 0.25-1 K, 40-280 MB per (T,V,q,mode) array) is part of both tiers; a fifth of the data sets list a q-point of weight zero; EoS orders 2-5 and non-cubic E(V) as in C05; the output sampling intervals are given as the grid steps, left out (packaged defaults) or given as multiples.",
     "C13": " Two thirds of the data sets carry generic (non power-law) spectra so that the choice of interpolation nodes matters; averages are compared where the stiffness is well "
            "conditioned and adiabatic values where the rounding uncertainty of the QHA heat capacity (4 eps |F| T / DT^2) is below 1e-7 of C_V.",
     "C14": " Working directories always contain entries named like the run's own crystal system and like its configured input files; in-process histories include dict-form output "
            "entries with unit / file-name overrides, and a calculation on the input files of an earlier one with exactly one setting changed (volume_ratio, order, T_MIN, interpolator, EoS order, NT, DT, P_MIN); refilling a redundant table that is consistent only within the "
-           "residual tolerance may move it by no more than its remaining distance from the invariant subspace.",
+           "residual tolerance may move it by no more than its remaining distance from the invariant subspace; half of the settings carry extra entries spelled like grid keywords in another letter case.",
     "C15": " DT_SAMPLE / DELTA_P_SAMPLE are drawn as 1-5x the grid steps (tables must not be thinned); pressure-base reference arrays are produced by the oracle's own conversion of the "
            "volume-base tensors rather than read back from the pressure-base interface.",
     "C17": " One phonon file name is rewritten again and again with data sets of identical shape (and size) before being read, and overwritten straight after reading (same second, a quarter of the time with the old mtime kept). The fill command is also run on redundant tables with noise below the residual tolerance (or of any size with "
            "--ignore-residuals), the relations being given as a user-written file so that the oracle computes the least-squares filling of the input itself; tables are listed largest-volume-first, smallest-first and unordered, and the lattice block is compared row by row.",
     "C18": " Pressure intervals are drawn both as arbitrary floats and as decimal fractions (0.1, 0.25, 0.4 ...) with the sampling interval an exact decimal multiple (0.3 of 0.1).",
     "C19": " Every scratch directory holds the whole bm_V/bm_VRH/G_V/G_VRH/v/v_p/v_s family of tables; geotherm files are written with integer literals in half of the cases; "
-           "non-finite cells of real tables must come back as they are; requests cover both halves of the first and last interval and the neighbourhood of a node at exactly 0 (T_MIN = 0, P_MIN = 0, zero inside).",
+           "non-finite cells of real tables must come back as they are; requests cover both halves of the first and last interval and the neighbourhood of a node at exactly 0 (T_MIN = 0, P_MIN = 0, zero inside); geotherm files carry whole-number columns (none / T / T+P / P) and further columns named almost like the coordinates (T_hot, T(C), P_lith ...).",
     "C20": " Displacement norms span 1e-9..1e6 and masses are given in amu, kg, g or electron masses; matdyn files are regenerated under one file name and loaded by relative name from different directories; the mass container of a conversion is edited in place and the conversion repeated.",
 }
 for _k, _v in _EXTRA.items():
